@@ -31,7 +31,7 @@ func lockDiscipline() {
 		panic(err)
 	}
 	var viol []string
-	nfuncs, nguarded := 0, 0
+	nfuncs, nguarded, muDecls := 0, 0, 0
 	shared := map[string]bool{"tss": true, "tssQ": true}
 	for _, e := range entries {
 		n := e.Name()
@@ -43,6 +43,34 @@ func lockDiscipline() {
 			panic(err)
 		}
 		for _, d := range f.Decls {
+			if gd, ok := d.(*ast.GenDecl); ok && gd.Tok == token.VAR {
+				for _, sp := range gd.Specs {
+					vs, ok := sp.(*ast.ValueSpec)
+					if !ok {
+						continue
+					}
+					for _, nm := range vs.Names {
+						if nm.Name != "tssMu" {
+							continue
+						}
+						muDecls++
+						se, ok := vs.Type.(*ast.SelectorExpr)
+						pk, ok2 := interface{}(nil), false
+						if ok {
+							pk, ok2 = se.X.(*ast.Ident)
+						}
+						isSync := false
+						for _, im := range f.Imports {
+							if im.Path.Value == `"sync"` && (im.Name == nil || im.Name.Name == "sync") {
+								isSync = true
+							}
+						}
+						if !ok || !ok2 || pk.(*ast.Ident).Name != "sync" || se.Sel.Name != "Mutex" || !isSync || len(vs.Values) != 0 {
+							viol = append(viol, n+": tssMu is not declared as a plain `sync.Mutex` of the standard library")
+						}
+					}
+				}
+			}
 			fd, ok := d.(*ast.FuncDecl)
 			if !ok || fd.Body == nil {
 				continue
@@ -61,7 +89,48 @@ func lockDiscipline() {
 			// reported as violations too: conservative)
 			first := token.NoPos
 			var unlocks, locks []token.Pos
+			var goStmts, funcLits, otherMu, itemMentions int
+			// the item type, its distinctive fields and the queue type may be named only by the two
+			// functions that work under the lock (and the queue's own methods): nothing else can hold,
+			// take or return a *tssItem and write to it outside the critical section
+			mentionsItem := func(nd ast.Node) {
+				ast.Inspect(nd, func(m ast.Node) bool {
+					switch y := m.(type) {
+					case *ast.Ident:
+						if y.Name == "tssItem" || y.Name == "tssQueue" {
+							itemMentions++
+						}
+					case *ast.SelectorExpr:
+						if y.Sel.Name == "buf" || y.Sel.Name == "qval" || y.Sel.Name == "qidx" {
+							itemMentions++
+						}
+					}
+					return true
+				})
+			}
+			// (other queue types of the package have fields of the same names: their methods are not looked at)
+			if fd.Recv == nil {
+				mentionsItem(fd.Type)
+				mentionsItem(fd.Body)
+			} else {
+				ast.Inspect(fd, func(m ast.Node) bool {
+					if y, ok := m.(*ast.Ident); ok && (y.Name == "tssItem" || y.Name == "tssQueue") {
+						itemMentions++
+					}
+					return true
+				})
+			}
 			ast.Inspect(fd.Body, func(nd ast.Node) bool {
+				switch x := nd.(type) {
+				case *ast.GoStmt:
+					goStmts++
+				case *ast.FuncLit:
+					funcLits++
+				case *ast.SelectorExpr:
+					if id, ok := x.X.(*ast.Ident); ok && id.Name == "tssMu" && x.Sel.Name != "Lock" && x.Sel.Name != "Unlock" {
+						otherMu++
+					}
+				}
 				switch x := nd.(type) {
 				case *ast.Ident:
 					if shared[x.Name] && x.Obj == nil || (shared[x.Name] && x.Obj != nil && x.Obj.Kind == ast.Var && x.Obj.Pos() < fd.Pos()) {
@@ -82,10 +151,19 @@ func lockDiscipline() {
 				}
 				return true
 			})
-			if first == token.NoPos && len(locks) == 0 && len(unlocks) == 0 {
+			if first == token.NoPos && len(locks) == 0 && len(unlocks) == 0 && otherMu == 0 {
+				if itemMentions > 0 {
+					viol = append(viol, n+":"+fd.Name.Name+": names the item or queue type of the store (or its fields buf/qval/qidx) outside the functions that hold tssMu")
+				}
 				continue
 			}
 			nguarded++
+			if goStmts > 0 || funcLits > 0 {
+				viol = append(viol, n+":"+fd.Name.Name+fmt.Sprintf(": %d go statements and %d function literals inside a function that works under tssMu (code that may run outside the critical section)", goStmts, funcLits))
+			}
+			if otherMu > 0 {
+				viol = append(viol, n+":"+fd.Name.Name+": tssMu used other than by Lock/Unlock (TryLock, copy, address taken)")
+			}
 			// the lock must be taken by a top-level statement of the body, immediately followed by the deferred unlock
 			lockPos := token.NoPos
 			for i, st := range fd.Body.List {
@@ -126,6 +204,9 @@ func lockDiscipline() {
 				viol = append(viol, name+fmt.Sprintf(": %d Lock and %d Unlock calls (expected exactly the top-level pair)", len(locks), len(unlocks)))
 			}
 		}
+	}
+	if muDecls != 1 {
+		viol = append(viol, fmt.Sprintf("core/server declares tssMu %d times (expected one package-level sync.Mutex)", muDecls))
 	}
 	sort.Strings(viol)
 	vs := make([]string, len(viol))
